@@ -87,3 +87,56 @@ Proof.
     replace (Z.to_nat (zlen cs)) with (length cs) by (unfold zlen; lia).
     rewrite rd_rep_chunks by exact Hf. reflexivity.
 Qed.
+
+(** ** the empty tabix index *)
+From Hts Require Import Model.Tabix.
+
+Lemma rd_bytes_wr a rest : rd_bytes (length a) (a ++ rest) = Ok (a, rest).
+Proof. apply rd_bytes_app. Qed.
+
+Definition fmt_ok (f z : Z) : bool :=
+  let v := Z.lor (u8 f) (if z =? 0 then 0 else 65536) in
+  (0 <=? v) && (v <? 2 ^ 31) && (u8 v =? f) && ((if Z.land v 65536 =? 0 then 0 else 1) =? z).
+
+Lemma format_field f z :
+  0 <= f < 256 -> (z = 0 \/ z = 1) ->
+  let v := Z.lor (u8 f) (if z =? 0 then 0 else 65536) in
+  0 <= v < 2 ^ 31 /\ u8 v = f /\ (if Z.land v 65536 =? 0 then 0 else 1) = z.
+Proof.
+  intros Hf Hz.
+  assert (B : fmt_ok f z = true).
+  { destruct Hz as [-> | ->].
+    - apply (byte_forall (fun f => fmt_ok f 0)); [vm_compute; reflexivity|exact Hf].
+    - apply (byte_forall (fun f => fmt_ok f 1)); [vm_compute; reflexivity|exact Hf]. }
+  unfold fmt_ok in B. cbv zeta in *.
+  apply andb_true_iff in B as [B B4]. apply andb_true_iff in B as [B B3]. apply andb_true_iff in B as [B1 B2].
+  apply Z.leb_le in B1. apply Z.ltb_lt in B2. apply Z.eqb_eq in B3. apply Z.eqb_eq in B4. auto.
+Qed.
+
+Lemma rd_bind_ok {A B} (r : rd A) (k : A -> rd B) s a s' :
+  r s = Ok (a, s') -> rd_bind r k s = k a s'.
+Proof. intros H. unfold rd_bind. rewrite H. reflexivity. Qed.
+
+Ltac rd_step L := erewrite rd_bind_ok by (apply L; unfold zlen; cbn [length]; lia).
+
+Lemma tabix_empty_roundtrip f z nc bc ec meta skip :
+  0 <= f < 256 -> (z = 0 \/ z = 1) ->
+  0 <= nc < 2 ^ 31 -> 0 <= bc < 2 ^ 31 -> 0 <= ec < 2 ^ 31 -> 0 <= meta < 2 ^ 31 -> 0 <= skip < 2 ^ 31 ->
+  tbx_read (fst (tbx_write (tb_new [f; z; nc; bc; ec; meta; skip])))
+  = Ok (Some (mkTbx [] [] [f; z; nc; bc; ec; meta; skip] (mkIdx [] None true io_maxint))).
+Proof.
+  intros Hf Hz Hnc Hbc Hec Hme Hsk.
+  destruct (format_field f z Hf Hz) as (V1 & V2 & V3).
+  set (v := Z.lor (u8 f) (if z =? 0 then 0 else 65536)) in *.
+  unfold tbx_write, tb_new. cbn [t_idx t_hdr t_names t_map wr_core ix_sort ix_empty isorted irefs iunm map flat_map app
+                                   wr_trailer hdr_get nth fold_left fst zlen length].
+  fold v. change (Z.of_nat 0) with 0. change (s32 0) with 0.
+  unfold tbx_read.
+  erewrite rd_bind_ok by (exact (rd_bytes_app tbi_magic _)).
+  change (negb (io_bytes_eqb tbi_magic tbi_magic)) with false. cbv iota.
+  do 8 (rd_step rd_i32_wr).
+  erewrite rd_bind_ok by (unfold rd_count; simpl; reflexivity).
+  erewrite rd_bind_ok by (exact (rd_bytes_app [] _)).
+  cbn [rev]. erewrite rd_bind_ok by (unfold rd_ret; reflexivity).
+  clearbody v. rewrite V2, V3. reflexivity.
+Qed.
